@@ -98,4 +98,46 @@ void b_plain_and_forbid(void)
   __CPROVER_assert(vp_rep_n == 1 && vp_exc == 0 && !vp_terminated, "[C04,C14] POST releasing them afterwards reports nothing more");
   __CPROVER_assert(0, "REACH! b_plain_and_forbid");
 }
+#ifdef WANT_FULL
+/* a complete expectation with the user's real clauses (closures lowered from the driver):
+ *   .WITH(_1 > 0).WITH(_1 < 9).LR_SIDE_EFFECT(g = g * 2).LR_SIDE_EFFECT(g = g + 1).TIMES(2, 5).IN_SEQUENCE(s1, s2).LR_RETURN(_1 + g)
+ * built, called once through the real mock_func, released */
+int nondet_int(void);
+void b_full_expectation(void)
+{
+  struct S_vp_M m; MK_M(&m); struct S_sequence s1, s2; MK_SEQ(&s1); MK_SEQ(&s2);
+  int g0 = nondet_int(); __CPROVER_assume(-1000 < g0 && g0 < 1000); int g = g0;
+  struct S_expectation *e = BUILD_FULL(&m, &s1, &s2, &g);
+  struct CM *c = cm_of(e);
+  __CPROVER_assert(vp_exc == 0 && vp_rep_n == 0 && g == g0, "[C08] POST building an expectation evaluates none of its clauses");
+  __CPROVER_assert(c->sequences->min_calls == 2 && c->sequences->max_calls == 5 && c->sequences->call_count == 0, "[C03] POST bounds are those given to TIMES");
+  __CPROVER_assert(c->sequences->vp_tag == VP_TAG_S_sequence_handler_2, "[C05] POST IN_SEQUENCE(s1, s2) gives a two-handle sequence handler");
+  struct SM *h0 = &((struct SH2 *)c->sequences)->matchers.matchers.e[0], *h1 = &((struct SH2 *)c->sequences)->matchers.matchers.e[1];
+  __CPROVER_assert((ONLY(RING(&s1), &h0->_b0) && ONLY(RING(&s2), &h1->_b0)) || (ONLY(RING(&s1), &h1->_b0) && ONLY(RING(&s2), &h0->_b0)), "[C05,C06] POST registered exactly once in each of its two sequences");
+  struct S_list_elem_condition_base_int_int *cs = &c->conditions._b0;
+  __CPROVER_assert(cs->next != cs && cs->next->next != cs && cs->next->next->next == cs, "[C08] POST two WITH clauses are stored");
+  __CPROVER_assert(((struct S_condition_base_int_int *)cs->next)->id[3] == '>' && ((struct S_condition_base_int_int *)cs->next->next)->id[3] == '<', "[C08,C15] POST WITH clauses are kept in declaration order with their text");
+  /* one call through the real mock_func */
+  int x = nondet_int(); g_tracer_obj_ptr = 0;
+  int ret = MOCK_FUNC(&m.trompeloeil_l_expectations_12, "f", "int(int)", &x);
+  if (x > 0 && x < 9) {
+    __CPROVER_assert(vp_exc == 0 && vp_rep_n == 0, "[C01] POST a call that passes both WITH clauses is accepted");
+    __CPROVER_assert(g == g0 * 2 + 1, "[C08] POST side effects run once each, in declaration order");
+    __CPROVER_assert(ret == x + g0 * 2 + 1, "[C08] POST the RETURN expression is evaluated after the side effects and its value reaches the caller");
+    __CPROVER_assert(c->sequences->call_count == 1 && vp_ok_n == 1, "[C03,C16] POST counted once, one OK report");
+  } else {
+    __CPROVER_assert(vp_exc == VP_EXC_VIOLATION && vp_rep_n == 1 && vp_rep[0].sev == 0, "[C01,C15] POST a call that fails a WITH clause is rejected with one fatal report");
+    __CPROVER_assert(g == g0 && c->sequences->call_count == 0 && vp_ok_n == 0, "[C01,C08] POST a rejected call has no effect");
+    vp_exc = 0;
+  }
+  int before = vp_rep_n;
+  vp_delete_struct_S_expectation(e);
+  /* a no-match report names every live expectation: it is then not reported again (C04) */
+  __CPROVER_assert(vp_rep_n == before + ((x > 0 && x < 9) ? 1 : 0), "[C04] POST below its lower bound at release: one report unless already named in a violation report");
+  __CPROVER_assert(EMPTY(ACT(&m)) && EMPTY(RING(&s1)) && EMPTY(RING(&s2)) && vp_exc == 0 && !vp_terminated, "[C04,C06,C14] POST released: lists and both sequences are empty");
+  SEQ_DTOR(&s1); SEQ_DTOR(&s2); M_DTOR(&m);
+  __CPROVER_assert(!(x > 0 && x < 9), "REACH full accepted"); __CPROVER_assert(x > 0 && x < 9, "REACH full rejected");
+  __CPROVER_assert(0, "REACH! b_full_expectation");
+}
+#endif
 int main(void) { VP_ENTRY(); return 0; }
